@@ -371,7 +371,7 @@ func genPool(g *hx.Gen) {
 }
 
 func gen(g *hx.Gen) {
-	n := g.Count(6000, 700000)
+	n := g.Count(6000, 500000)
 	for i := 0; i < n; i++ {
 		if i%10 == 9 {
 			genPool(g)
